@@ -3,7 +3,10 @@
 
 TRANSLATED (tools/rs2v) into Gallina over the types of the hand model (Model/Svg.v):
   rgb_value, color_name, color_styles, split_lines, write_fg_span, write_bg_span and
-  Term::render_svg (the INVERT pre-pass, the geometry, the whole template).
+  Term::render_svg (the INVERT pre-pass, the geometry, the whole template);
+  Term::{new, palette, fg_color, bg_color, background, min_width_px}, `impl Default for Term` and the constants
+  FG_COLOR / BG_COLOR over the WHOLE struct (Model/Svg.svg_term_full: all seven fields, per-field setters;
+  second vocabulary VOCAB_TERM, no oracle parameter).
 Proofs/SvgGen.v proves every translation equal to the hand model the theorems of C14 are about.
 
 What these functions CALL is vocabulary:
@@ -15,27 +18,28 @@ What these functions CALL is vocabulary:
     `.unwrap()` on the fmt::Result is the identity);
   * anstyle: Style::{get_fg_color, get_bg_color, get_underline_color, get_effects, fg_color, bg_color, effects},
     Effects::{new, contains, remove, |=, constants}, Ansi256Color::{from_ansi, index} (the functions translated in
-    Generated/LossyFn.v), anstyle_lossy::color_to_rgb (Generated/LossyFn.g_color_to_rgb);
-  * anstream: WinconBytes::new().extract_next(bytes).collect() = Proofs/WinconGen.g_extract_next on a fresh
-    parser and capture (the translated styled-run extractor; WinconBytes::new is pinned below);
+    Generated/LossyFn.v), anstyle_lossy::color_to_rgb (Generated/LossyFn.g_color_to_rgb), the palette constant
+    `VGA` (Generated/Palette.vga; the `pub use anstyle_lossy::palette::VGA;` line is checked);
+  * anstream: WinconBytes::new() = Generated/WinconFn.g_wb_new and `.extract_next(bytes).collect()` =
+    Proofs/WinconGen.gt_extract_next (the drain of the TRANSLATED WinconBytes::extract_next / WinconBytesIter::next):
+    nothing of adapter/wincon.rs is pinned here any more, an edit of WinconBytes::new changes g_wb_new and breaks
+    g_wb_new_eq / translated_wb_extract_next_is_model (Proofs/WinconGen.v), which render_svg's proof rewrites with
+    (WinconFn is in C14's gen_deps);
   * html_escape::encode_text (third party): Model/Svg.svg_encode_text;
-  * the ORACLE `o : svg_oracle` (first argument of every translated function): unicode_width's
+  * the ORACLE `o : svg_oracle` (first argument of every function translated with VOCAB): unicode_width's
     UnicodeWidthStr::width, the f64 expression `(x as f64 * 8.4).ceil() as usize` as a function of x, and
     Term::min_width_px -- exactly what the hand model leaves to its arguments width_px / wf.
 
-HAND-MODELLED, pinned by token hash:
-  * Term::new and the list of methods of `impl Term` (font_family and padding_px have no setter: their getters are
-    the constants tools/gen_svg.py reads from Term::new);
-  * Term::{palette, fg_color, bg_color, background, min_width_px} and `impl Default for Term` (builder plumbing:
-    the hand model's counterpart is the record constructor mkSvgTerm);
-  * WinconBytes::new (Default::default() of a derive: a fresh parser and capture)."""
+CHECKED, not hashed: the exact list of methods of `impl Term` (render_svg's translation reads font_family / padding_px
+as the constants of Term::new because no method assigns them; Proofs/SvgGen.v proves that Term::new establishes and
+every builder of the list keeps svg_tf_consts).  No token pin is left in this plug-in."""
 import os
 import sys
 
 sys.path.insert(0, os.path.dirname(os.path.abspath(__file__)))
-from rs2v.driver import translate, TranslateError, token_hash, fn_source   # noqa: E402
-from rs2v.emit import EmitError, NeedsBind                                  # noqa: E402
-from rs2v.rparser import parse_macro_args                                   # noqa: E402
+from rs2v.driver import translate, TranslateError                          # noqa: E402
+from rs2v.emit import EmitError, NeedsBind, Emitter, Env                    # noqa: E402
+from rs2v.rparser import parse_macro_args, parse_file, find_items, ParseError   # noqa: E402
 from rs2v.lexer import tokenize                                             # noqa: E402
 
 U8, USZ, CHAR = ("int", "u8"), ("int", "usize"), ("int", "char")
@@ -334,7 +338,9 @@ m_btree_insert.mutates = True
 
 
 def m_extract_next(em, e, rt, rty, env, k):
-    """WinconBytes::extract_next(bytes) drained (`.collect()` follows): the translated extractor"""
+    """WinconBytes::extract_next(bytes) drained (`.collect()` follows): Proofs/WinconGen.gt_extract_next, the drain of the
+    TRANSLATED WinconBytes::extract_next / WinconBytesIter::next (Generated/WinconFn.v) with the iterator's parser and
+    capture copied back into the WinconBytes it borrows from"""
     if len(e.args) != 1:
         raise EmitError("extract_next: one argument expected")
     if em.pure_mode:
@@ -343,9 +349,9 @@ def m_extract_next(em, e, rt, rty, env, k):
     def k1(t, ty, env1):
         if ty != BYTES:
             raise EmitError("extract_next of a value of type %r" % (ty,))
-        runs, p, c = em.fresh("runs"), em.fresh("parser"), em.fresh("capture")
-        head = "'(%s, %s, %s) <- g_extract_next %s (fst %s) (snd %s) ;;\n" % (runs, p, c, t, rt, rt)
-        return head + em.write_place(e.recv, "(%s, %s)" % (p, c), env1, lambda env2: k(runs, ("list", RUN), env2))
+        runs, wb = em.fresh("runs"), em.fresh("wb")
+        head = "'(%s, %s) <- gt_extract_next %s %s ;;\n" % (runs, wb, t, rt)
+        return head + em.write_place(e.recv, wb, env1, lambda env2: k(runs, ("list", RUN), env2))
     return em.expr(e.args[0], env, k1)
 
 
@@ -405,7 +411,7 @@ def fuel_split_lines(env):
 
 VOCAB = {
     "config_param": ("o", "svg_oracle"),
-    "reserved": ["o", "t", "s", "k", "svg_o_uw", "svg_o_ceil84", "g_extract_next", "g_color_to_rgb", "g_from_ansi", "g_a256_index",
+    "reserved": ["o", "t", "s", "k", "svg_o_uw", "svg_o_ceil84", "g_extract_next", "gt_extract_next", "g_wb_new", "g_color_to_rgb", "g_from_ansi", "g_a256_index",
                  "parser_new", "capture_default", "existsb", "flat_map", "option_map", "color", "colour", "rgb", "N", "max", "lor", "ldiff"],
     "str_chars": STR,
     "for_mut": True,
@@ -436,7 +442,7 @@ VOCAB = {
         "Ansi256Color": {"coq": "N", "var": "i", "check": False, "fields": {"0": ("a256_f0", None, U8)}},
         "Palette": {"coq": "(list rgb)", "var": "p", "check": False, "fields": {}},
         "BTreeMap": {"coq": "(list (list N * list N))", "var": "m", "check": False, "fields": {}},
-        "WinconBytes": {"coq": "(parser * capture)", "var": "wb", "check": False, "fields": {}},
+        "WinconBytes": {"coq": "wbytes", "var": "wb", "check": False, "fields": {}},
     },
     "consts": dict([("Effects::" + n, ("eff_" + n.lower(), EFFECTS)) for n in EFFECT_NAMES] + [
         ("ANSI_NAMES", ("svg_ansi_names", ("list", STR))),
@@ -452,7 +458,7 @@ VOCAB = {
         "String::new": f_const("[]", STR, "String::new"),
         "BTreeMap::new": f_const("[]", BTREE, "BTreeMap::new"),
         "Effects::new": f_const("0", EFFECTS, "Effects::new"),
-        "WinconBytes::new": f_const("(parser_new, capture_default)", WBYTES, "WinconBytes::new"),
+        "WinconBytes::new": f_const("g_wb_new", WBYTES, "WinconBytes::new"),      # translated in Generated/WinconFn.v
         "html_escape::encode_text": shape("svg_encode_text", [("in", STR)], STR),
         "anstyle_lossy::color_to_rgb": shape("g_color_to_rgb", [("in", COLOR), ("in", PAL)], RGB, total=False),
         "Ansi256Color::from_ansi": shape("g_from_ansi", [("in", ANSI)], A256, total=False),
@@ -494,6 +500,64 @@ VOCAB = {
     "opaque": {},
 }
 
+# ---------------------------------------------------------------------------
+# Term::new, the builders, impl Default: a SECOND vocabulary over the whole `struct Term` (Model/Svg.svg_term_full:
+# every field, with per-field setters).  render_svg keeps the entry above (the hand model's four-field record,
+# font_family / padding_px as constants, min_width_px from the oracle); Proofs/SvgGen.v relates the two through
+# the projections svg_tf_term / svg_tf_oracle and the invariant svg_tf_consts.
+TERM_FIELDS = [("palette", PAL), ("fg_color", COLOR), ("bg_color", COLOR), ("background", BOOL),
+               ("font_family", STR), ("min_width_px", USZ), ("padding_px", USZ)]
+TERM_FULL = {"coq": "svg_term_full", "var": "t", "ctor": ("mkSvgTermFull", [f for f, _ in TERM_FIELDS]),
+             "fields": {f: ("svg_tf_" + f, "set_svg_tf_" + f, ty) for f, ty in TERM_FIELDS}}
+# the crate's own colour constants are translated (const_defs), VGA is the palette of Generated/Palette.v
+TERM_CONSTS = [("FG_COLOR", "g_svg_const_fg_color"), ("BG_COLOR", "g_svg_const_bg_color")]
+VOCAB_TERM = dict(VOCAB)
+del VOCAB_TERM["config_param"]
+VOCAB_TERM["structs"] = dict(VOCAB["structs"], Term=TERM_FULL)
+VOCAB_TERM["consts"] = dict(VOCAB["consts"], VGA=("vga", PAL), **{r: (c, COLOR) for r, c in TERM_CONSTS})
+VOCAB_TERM["fns"] = dict(VOCAB["fns"], **{"Color::Ansi": shape("Ansi", [("in", ANSI)], COLOR)})
+VOCAB_TERM["reserved"] = VOCAB["reserved"] + ["vga", "Ansi"] + [c for _, c in TERM_CONSTS]
+# render_svg over the whole struct: the vocabulary of the helpers (oracle parameter included), only `Term` differs
+VOCAB_FULL = dict(VOCAB, structs=dict(VOCAB["structs"], Term=TERM_FULL))
+TERM_TARGETS = [
+    ("new", "Term", "g_svg_term_new", {}),
+    ("default", "Term", "g_svg_term_default", {"trait": "Default"}),
+    ("palette", "Term", "g_svg_term_palette", {}),
+    ("fg_color", "Term", "g_svg_term_fg_color", {}),
+    ("bg_color", "Term", "g_svg_term_bg_color", {}),
+    ("background", "Term", "g_svg_term_background", {}),
+    ("min_width_px", "Term", "g_svg_term_min_width_px", {}),
+]
+
+
+def squash(s):
+    return "".join(s.split())
+
+
+def const_defs(src):
+    """`const FG_COLOR: anstyle::Color = ..;` / BG_COLOR: the value expression, translated"""
+    try:
+        items = parse_file(src)
+    except ParseError as e:
+        raise TranslateError("parse error: %s" % e)
+    em = Emitter(VOCAB_TERM, items)
+    out = []
+    for rname, cname in TERM_CONSTS:
+        its = find_items(items, "const", rname)
+        if len(its) != 1:
+            raise TranslateError("const %s: %d definitions" % (rname, len(its)))
+        try:
+            if em.ty_of_ast(its[0].ty) != COLOR:
+                raise EmitError("declared type is not anstyle::Color")
+            pr = em.try_pure(its[0].val, Env(em))
+            if pr is None or pr[1] != COLOR:
+                raise EmitError("the value is not a constant anstyle::Color expression of the vocabulary")
+        except EmitError as e:
+            raise TranslateError("const %s: %s" % (rname, e))
+        out.append("(* const %s *)\nDefinition %s : color :=\n  %s.\n" % (rname, cname, pr[0]))
+    return "\n".join(out)
+
+
 SRC = "crates/anstyle-svg/src/lib.rs"
 HEADER = ("(* GENERATED by tools/gen_fn_svg.py (tools/rs2v) from crates/anstyle-svg/src/lib.rs -- do not edit *)")
 REQ = """From Coq Require Import NArith List Bool.
@@ -504,20 +568,12 @@ Local Open Scope N_scope.
 Local Open Scope bool_scope."""
 
 # hand-modelled, pinned by token hash
-PIN_TERM_NEW = "c29524bd097a9348"          # Term::new: the constants behind svg_t_font_family / svg_t_padding (tools/gen_svg.py reads them)
-PIN_WINCON_NEW = "6d04de4a0dc0f8a7"      # WinconBytes::new: Default::default() of a derive = (parser_new, capture_default)
+# the exact list of methods of `impl Term`: font_family / padding_px have no setter, which is what lets render_svg's
+# translation read them as the constants of Term::new (svg_t_font_family / svg_t_padding; Proofs/SvgGen.v proves that
+# Term::new and every builder listed here keep svg_tf_consts).  A new method is a GEN-ERROR: it must be translated too.
 TERM_METHODS = ["new", "palette", "fg_color", "bg_color", "background", "min_width_px", "render_svg"]
-# builder plumbing (`const fn f(mut self, x) -> Self { self.f = x; self }`, `impl Default`): the hand model has no
-# counterpart but the record constructor mkSvgTerm (the correspondence driver builds the term from its four
-# fields); min_width_px is the oracle's svg_o_min_width
-PIN_BUILDERS = {
-    "palette": "029598a52af374f5",
-    "fg_color": "18716bceb917f286",
-    "bg_color": "0f6fa76590a2460e",
-    "background": "320d4ce2d037253d",
-    "min_width_px": "dd5f781b239af3e4",
-    "default": "26b99b30cad16896",
-}
+# the imports the vocabulary depends on: `VGA` is anstyle_lossy's (Generated/Palette.vga), `Palette` the list of 16 rgb values
+TERM_USES = ["pub use anstyle_lossy::palette::Palette;", "pub use anstyle_lossy::palette::VGA;"]
 
 
 def impl_fn_names(src, name):
@@ -555,22 +611,13 @@ def register(generators, gm):
     def gen():
         try:
             src = gm.read(SRC)
-            wsrc = gm.read("crates/anstream/src/adapter/wincon.rs")
-            h = token_hash(fn_source(src, "new", "Term"))
-            if h != PIN_TERM_NEW:
-                raise TranslateError("Term::new changed (token hash %s, pinned %s): font_family / padding_px are constants of the "
-                                     "hand model read from it" % (h, PIN_TERM_NEW))
             names = impl_fn_names(src, "Term")
             if names != TERM_METHODS:
                 raise TranslateError("impl Term: methods %s, expected %s (a new setter would make a constant field variable)" % (names, TERM_METHODS))
-            for fname, pin in PIN_BUILDERS.items():
-                h = token_hash(fn_source(src, fname, "Term"))
-                if h != pin:
-                    raise TranslateError("Term::%s changed (token hash %s, pinned %s): builder plumbing, modelled by the record "
-                                         "constructor mkSvgTerm" % (fname, h, pin))
-            h = token_hash(fn_source(wsrc, "new", "WinconBytes"))
-            if h != PIN_WINCON_NEW:
-                raise TranslateError("WinconBytes::new changed (token hash %s, pinned %s): modelled as a fresh parser and capture" % (h, PIN_WINCON_NEW))
+            sq = squash(gm.strip_comments(src))
+            for need in TERM_USES:
+                if squash(need) not in sq:
+                    raise TranslateError("`%s` not found (the vocabulary of Term::new depends on it)" % need)
             shapes = {}
             out = []
             for tgt in TARGETS:
@@ -578,6 +625,15 @@ def register(generators, gm):
                 if tgt[0] == "color_styles":
                     # `-> impl Iterator<Item = (String, String)>`: the BTreeMap's entries in key order
                     shapes["color_styles"]["ret"] = ("list", ("tuple", (STR, STR)))
+            # Term::new, impl Default, the builders: over the whole struct (VOCAB_TERM), after the colour constants
+            out.append(const_defs(src))
+            tshapes = {}
+            out.append(translate(src, VOCAB_TERM, TERM_TARGETS, "", "", tshapes).lstrip("\n"))
+            # render_svg once more, reading every `self.<field>` from the whole struct (font_family, padding_px and
+            # min_width_px included): Proofs/SvgGen.v proves it equal to g_svg_render on the projections for every
+            # term that keeps svg_tf_consts, i.e. the constants-for-fields reading above is a theorem, not a pin
+            out.append(translate(src, VOCAB_FULL, [("render_svg", "Term", "g_svg_render_full", {"key": "Term::render_svg@full"})],
+                                 "", "", shapes).lstrip("\n"))
             return "\n".join(out) + "\n"
         except TranslateError as e:
             raise gm.GenError(str(e))
